@@ -688,7 +688,7 @@ def corpus():
 
 
 def check(run: Run, lean: dict) -> int:
-    n = 1500 if run.tier == "quick" else 40000
+    n = run.budget(1500, 40000)
     run.extra["rule"] = (
         "9 element contexts (no namespace; prefixed element; default namespace; foreign-namespace attributes; xmlns='' under a "
         "default; created plain / namespaced; detached prefixed / default-namespace) x sequences of 4-14 operations over a "
